@@ -90,6 +90,8 @@ def case_simple(log, k):
         E.decide(log, v, "S%d:recurrence" % k, replay=(MOD, "replay_simple", {"k": k}), sampler=_sampler)
         v = prove_zero(f(0), "S%d(0) == 0 (value psi_%d(1) axiom)" % (k, k - 1))
         E.decide(log, v, "S%d:zero" % k, replay=(MOD, "replay_simple", {"k": k, "zero": True}), candidates=[{"N": Fraction(0)}])
+        v = prove_zero(E.im_sr(f(N)), "Im S%d(N) == 0 for real N (axiom: psi_%d real on the real axis; with Schwarz reflection S(conj N) = conj S(N))" % (k, k - 1))
+        E.decide(log, v, "S%d:real" % k, replay=(MOD, "replay_simple", {"k": k, "conj": True}), sampler=_sampler)
         v = prove_zero(f(1) - 1, "S%d(1) == 1" % k)
         E.decide(log, v, "S%d:zero" % k, replay=(MOD, "replay_simple", {"k": k, "zero": True}), candidates=[{"N": Fraction(1)}])
         E.twin(log)
@@ -188,6 +190,10 @@ class UF:
         self.table = table
 
     def __call__(self, *args):
+        if any(isinstance(a, float) and a != a for a in args):
+            # an empty (nan) slot flows into the function: the real code returns nan; model it as a fresh unknown value
+            ctx.notes.append("%s called with a nan argument (empty cache slot used as a value)" % self.name)
+            return SR.var(ctx.fresh("nan_" + self.name))
         key = (self.name,) + tuple(a.v.key() if isinstance(a, SR) else ("c", Fraction(a).limit_denominator(10**12)) for a in map(_real, args))
         at = self.table.get(key)
         if at is None:
@@ -419,7 +425,7 @@ def _real_S(k):
     return {1: h.S1, 2: h.S2, 3: h.S3, 4: h.S4, 5: h.S5}[k]
 
 
-def replay_simple(point, k, zero=False):
+def replay_simple(point, k, zero=False, conj=False):
     """S_k at every integer 0..60 against exact rational sums, and the one-step recurrence at the given (real) point
     and at complex points of the Talbot range against (N+1)^-k"""
     f = _real_S(k)
@@ -435,6 +441,9 @@ def replay_simple(point, k, zero=False):
     for z in pts:
         if z.real < 0:
             continue
+        a, b = complex(f(z)), complex(f(z.conjugate()))
+        if abs(b - a.conjugate()) > 1e-9 * max(1.0, abs(a)) or (z.imag == 0 and abs(a.imag) > 1e-12):
+            return {"detail": "S%d(conj N) = %r but conj S%d(N) = %r at N=%r" % (k, b, k, a.conjugate(), z)}
         got = complex(f(z + 1)) - complex(f(z))
         want = 1 / (z + 1) ** k
         if abs(got - want) > 1e-9 * max(1.0, abs(want)):
@@ -506,6 +515,8 @@ def replay_cache(point, name, flag, filled, check_slots=False):
             cache[getattr(c, f)] = _direct_real(f, N, flag)
         got = complex(c.get(getattr(c, name), cache, N, flag))
         want = complex(_direct_real(name, N, flag))
+        if got != got:
+            return {"detail": "cache.get(%s, N=%r, is_singlet=%s) with prefilled %s returns nan (an empty slot was used as a value)" % (name, N, flag, filled)}
         if len(name) == 2:
             k = int(name[1])
             want = complex((-1) ** (k - 1) / mp.factorial(k - 1) * (mp.polygamma(k - 1, mp.mpc(N) + 1) - mp.polygamma(k - 1, 1)))
